@@ -100,4 +100,22 @@ def Lab.run : Lab → List LabEv → List Nat
   | l, e :: es => (l.step e).2 ++ Lab.run (l.step e).1 es
 
 
+/-! ### (c) version ids: persistence order and the loader's repair -/
+
+/-- what the store holds: the version-id counter (`newIDs` key) and the largest version id in the stored
+    `versionToUUID` map (0 = empty) -/
+structure VerP where
+  counter : Nat
+  mapMax : Nat
+  deriving DecidableEq, Repr
+
+/-- the two writes of `newUUID`, in the order the source performs them: first the map, then the counter -/
+def VerP.afterMapWrite (p : VerP) : VerP := { p with mapMax := max p.mapMax p.counter }
+def VerP.afterCounterWrite (p : VerP) : VerP := { p with counter := p.counter + 1 }
+
+/-- the in-memory counter after `loadMetadata` -/
+def VerP.reload (p : VerP) : Nat :=
+  if Gen.loaderRepairsEqualVersion then (if p.mapMax ≥ p.counter then p.mapMax + 1 else p.counter)
+  else (if p.mapMax > p.counter then p.mapMax + 1 else p.counter)
+
 end Dvid.Ids
